@@ -46,16 +46,40 @@ RULE = ("gated or free-running rounds of 2-4 fresh interpreters submitting the s
         "two processes recorded job.lock_acquired and the trace alternates between processes at least 3 times")
 
 EXTRA = """
-Definition tie_accepts (c : trace_case) : bool := accepts c.
-Definition tie_final (c : trace_case) : bool := final_matches c.
-Definition spec_ok (c : trace_case) : bool := let '(pre, bv, tr, go, pos) := c in c10_specb bv go pos.
+(* the trace, the body executions before the concurrent round, the submitters of the round *)
+Definition c10_case := (trace_case * nat * list nat)%type.
+Definition tie_accepts (c : c10_case) : bool := accepts (fst (fst c)).
+Definition tie_final (c : c10_case) : bool := final_matches (fst (fst c)).
+Definition minus_runs (g : gobs) (k : nat) : gobs :=
+  let '(a, b, c, d, e, f, r, i) := g in (a, b, c, d, e, f, r - k, i).
+Definition spec_ok (c : c10_case) : bool :=
+  let '(pre, bv, tr, go, pos, before, who) := c in
+  c10_specb bv (minus_runs go before) (filter (fun po => existsb (Nat.eqb (pobs_pid po)) who) pos).
 """
+
+
+def errored_first(rng, k, script):
+    """A stored FAILURE of the task (body failed once, the cause is gone), then two concurrent submitters.
+    script=True pins: A takes the lock and checks, B is let go from job.pre_run_done (it can only wait for the
+    lock - or peek at the stored failure if the code looks before locking), then A re-executes, then B."""
+    gate = dict(policy=rng.choice(["random", "bursts", "roundrobin"]), seed=rng.randrange(10 ** 6))
+    if script:
+        gate = dict(policy="roundrobin", seed=0, script=[[0, 2, 0], [1, 1, 1.5], [0, 400, 0]])
+    return dict(name="c10-errored-first-%d" % k, pre=False, task=dict(task="python", x=rng.randrange(1, 40), flaky=True),
+                stages=[dict(children=[dict(subs=[{"_body_raises": True}])], gate=None),
+                        dict(children=[dict(subs=[{}]) for _ in range(2 if script else rng.choice([2, 3]))], gate=gate)],
+                timeout=150)
 
 
 def gen_scenarios(rng, n, corpus):
     out = [c["scenario"] for c in corpus if "scenario" in c]
+    out.append(errored_first(rng, 0, True))
     k = 0
     while len(out) < n:
+        if k % 9 == 5:
+            out.append(errored_first(rng, k, rng.random() < 0.5))
+            k += 1
+            continue
         nproc = rng.choice([2, 2, 3, 3, 4])
         kind = "shell" if rng.random() < 0.2 else "python"
         pol = rng.choice([None, "random", "random", "bursts", "bursts", "roundrobin"])
@@ -86,8 +110,12 @@ def run(ctx):
     out = Outcome(rule=RULE)
     for sc, res in zip(scs, results):
         bv = procs.expected_value(sc["task"])
-        cases.append(procs.case_literal(sc, res, bv))
-        np_ = len(res["children"])
+        before = res["runs_stage"][-2] if len(res["runs_stage"]) >= 2 else 0
+        nlast = len(sc["stages"][-1]["children"])
+        who = [c["idx"] for c in res["children"][-nlast:]]
+        cases.append("(%s, %d, %s)" % (procs.case_literal(sc, res, bv), before,
+                                       coqio.lst([coqio.nat(i) for i in who])))
+        np_ = nlast
         dist["processes"][str(np_)] = dist["processes"].get(str(np_), 0) + 1
         dist["with_existing_result"] += bool(sc.get("pre"))
         dist["gated"] += bool(sc["stages"][0].get("gate"))
@@ -101,14 +129,16 @@ def run(ctx):
             seen.add(sig)
             if acq >= 2 and alternations(res["events"]) >= 3:
                 nontrivial += 1
+        dist["stored_failure_first"] = dist.get("stored_failure_first", 0) + (len(sc["stages"]) > 1)
         if res["hang"] or any(c["rc"] != 0 for c in res["children"]):
             out.failures.append(Failure(case={"scenario": sc}, observed=_obs(res), expected="every submitter returns",
                                         note="a submitter hung or died", kind="spec"))
-    chk = coqio.run_cases(ctx.scratch, "c10", IMPORTS, "trace_case", cases,
+    chk = coqio.run_cases(ctx.scratch, "c10", IMPORTS, "c10_case", cases,
                           {"accepts": "tie_accepts", "final": "tie_final", "spec": "spec_ok"}, extra=EXTRA, shard=20)
     for i in chk["spec"]:
         out.failures.append(Failure(case={"scenario": scs[i]}, observed=_obs(results[i]),
-                                    expected="body executions = 1 and every outcome = Returned(errored=False, out=%d)"
+                                    expected="body executions in the concurrent round = 1 (0 if a result was there) and "
+                                             "every outcome = Returned(errored=False, out=%d)"
                                              % procs.expected_value(scs[i]["task"]),
                                     note="C10 spec: single execution, identical correct outputs", kind="spec"))
     for i in sorted(set(chk["accepts"]) | set(chk["final"])):
@@ -134,7 +164,8 @@ def run(ctx):
 
 
 def _obs(res):
-    return {"body_executions": res["runs"], "cache": res["cache"], "hang": res["hang"],
+    return {"body_executions": res["runs"], "body_executions_per_stage": res["runs_stage"], "cache": res["cache"],
+            "hang": res["hang"],
             "children": [{"idx": c["idx"], "rc": c["rc"], "report": c["report"], "tail": c["tail"]} for c in res["children"]],
             "events": ["%d:%s" % e for e in res["events"]]}
 
@@ -142,7 +173,7 @@ def _obs(res):
 def _model_view(ctx, case, name):
     try:
         v = coqio.eval_terms(ctx.scratch, name, IMPORTS, [
-            "let '(pre, bv, tr, go, pos) := %s in (first_reject bv (init bv pre) tr 0, List.length tr, "
+            "let '(pre, bv, tr, go, pos, before, who) := %s in (first_reject bv (init bv pre) tr 0, List.length tr, "
             "match accept_run bv (init bv pre) tr with Some s => Some (observe_g s (map pobs_pid pos), map (fun po => observe_p s (pobs_pid po)) pos) | None => None end)" % case])
         return {"first_rejected_event_index, trace_length, model_final_observation": v[0]}
     except Exception as e:  # pragma: no cover
@@ -218,9 +249,12 @@ def replay(ctx, payload):
     sc = case["scenario"]
     res = procs.run_scenario(sc)
     bv = procs.expected_value(sc["task"])
-    lit = procs.case_literal(sc, res, bv)
+    before = res["runs_stage"][-2] if len(res["runs_stage"]) >= 2 else 0
+    nlast = len(sc["stages"][-1]["children"])
+    who = [c["idx"] for c in res["children"][-nlast:]]
+    lit = "(%s, %d, %s)" % (procs.case_literal(sc, res, bv), before, coqio.lst([coqio.nat(i) for i in who]))
     print("implementation:", json.dumps(_obs(res), indent=1, default=repr))
-    vals = coqio.eval_terms(ctx.scratch, "replay", IMPORTS, ["accepts %s" % lit, "final_matches %s" % lit, "spec_ok %s" % lit],
+    vals = coqio.eval_terms(ctx.scratch, "replay", IMPORTS, ["tie_accepts %s" % lit, "tie_final %s" % lit, "spec_ok %s" % lit],
                             extra=EXTRA)
     print("model accepts trace:", vals[0], " final observations match:", vals[1])
     print("model:", _model_view(ctx, lit, "replay2"))
